@@ -73,7 +73,7 @@ def reply_identity_errors(r, cfg):
 
 
 # content templates: fn(dmac, cmac, cip, sip) -> frame ------------------------------------------------
-def templates(rng, ns_target=None):
+def templates(rng, ns_target=None, poll_mac=None):
     tid = stun.gen_tid(rng, True)
     stun_req = stun.msg(1, tid)
     stun_cr = stun.msg(1, tid, struct.pack("!HH", 3, 4) + b"\0\0\0" + bytes([rng.choice([2, 4, 6])]))    # change-port / change-ip / both
@@ -89,6 +89,8 @@ def templates(rng, ns_target=None):
 
     t4 = [
         ("arp", lambda dm, cm, ci, si: pkt.eth(dm, cm, ET_ARP, pkt.arp(1, cm, ci, b"\0" * 6, si))),
+        # "unicast poll": the request already names the responder's MAC as target hardware address
+        ("arppoll", lambda dm, cm, ci, si: pkt.eth(dm, cm, ET_ARP, pkt.arp(1, cm, ci, poll_mac or dm, si))),
         ("echo4", lambda dm, cm, ci, si: l3(dm, cm, ci, si, P_ICMP, pkt.icmp4(8, 0, struct.pack("!HH", ident, 1) + b"scope"))),
         ("syn4", lambda dm, cm, ci, si: l3(dm, cm, ci, si, P_TCP, pkt.tcp(ci, si, sp, dp, seq, 0, SYN))),
         ("stun4", lambda dm, cm, ci, si: l3(dm, cm, ci, si, P_UDP, pkt.udp(ci, si, sp, dp, stun_req))),
@@ -124,7 +126,7 @@ def build_cases(ctx, cfg, sweep):
     rng = ctx.rng
     s4 = [a for a in (cfg.selfips or []) if len(a) == 4]
     s6 = [a for a in (cfg.selfips or []) if len(a) == 16]
-    t4, t6 = templates(rng, ns_target=rng.choice(s6) if s6 else gen.rnd_ip6(rng))
+    t4, t6 = templates(rng, ns_target=rng.choice(s6) if s6 else gen.rnd_ip6(rng), poll_mac=cfg.mac)
     cases = []
     auth = sorted(auth_macs(cfg))
     cm = gen.rnd_mac(rng)
@@ -214,7 +216,7 @@ def shard(ctx, budget_s):
     first = True
     nconf = 0
     while time.time() < deadline or first:
-        cfg = gen.rnd_config(rng, logger="n", level=0, n4=3, n6=3)
+        cfg = gen.rnd_config(rng, logger="n", level=0, n4=3, n6=3, single_family=True)
         perm = Config(cfg.mac, None, None, cfg.key, "n", 0)
         cases = build_cases(ctx, cfg, ets if first else None)
         first = False
@@ -266,4 +268,4 @@ def shard(ctx, budget_s):
 def run(tier, seed):
     v = core.Verdict(PROP, tier, seed)
     v.merge(core.run_shards(shard, PROP, tier, seed, budget_s=25 if tier == "quick" else 420))
-    return v.finish(RULE, floor=20000 if tier == "quick" else 300000, assumptions=ASSUME)
+    return v.finish(RULE, floor=2000 if tier == "quick" else 20000, assumptions=ASSUME)
